@@ -1,13 +1,230 @@
 /-
   C16 — Offline export and import lose nothing.
+
+  Property theorems only; the model is Model/JsonBlob.lean (libvuln/jsonblob:
+  Store.Update*, Store.Store, bufShim, Loader.Next; libvuln.OfflineImport's
+  loop), helper lemmas are in Proofs/JsonBlob.lean.  The model is tied to the
+  code by the correspondence run of `./check C16` (recording histories, Store,
+  Load and hand-made files on the real package, line by line).
+
+  Full statement of the property, for reference:
+
+      for every history `ops` of recording calls, every map order and every
+      record size:  Store succeeds and Load yields a permutation of ALL the
+      recorded updates (same updater, fingerprint, records in order).
+
+  The unchanged code violates it in two ways (`zero_length_lost_counterexample`,
+  `oversize_record_store_fails_counterexample`), so the history theorem is
+  proved in two forms: `load_store_drops_only_empty` (what really comes back,
+  under the size hypothesis) and `load_store_roundtrip_partial` (the full
+  conclusion under the two hypotheses the proof needs: no zero-length update, no
+  line of 1 MiB or more).
 -/
 import ClairModel.Proofs.JsonBlob
 
 namespace ClairModel.Props.C16
 open ClairModel ClairModel.JsonBlob
 
-/-- An empty recording loads as no entries. -/
-theorem empty_recording_loads_nothing : loadAll [] = ([], .ok) := by
+/-! ### Recording -/
+
+/-- After any history (recordings with arbitrary uuid draws, including colliding
+    ones, and flushes) the keys of the store's map are pairwise different and
+    none is uuid.Nil: the retry loop on a uuid collision does its job.  This is
+    what makes "group consecutive lines by ref" sound for one `Store` call. -/
+theorem refs_distinct (ops : List Op) :
+    (Sm.run step World.init ops).store.entries.Pairwise (fun a b => a.ref ≠ b.ref) ∧
+    ∀ e ∈ (Sm.run step World.init ops).store.entries, e.ref ≠ 0 :=
+  ⟨(inv_run ops).distinct, (inv_run ops).nonNil⟩
+
+/-- A history of recording calls writes nothing and leaves in the map exactly
+    the updates of the calls that returned, in call order (concurrent recorders
+    are such a history: each call's critical section is atomic under `s.Lock`). -/
+theorem recorded_updates_are_the_map (ops : List Op) (h : RecOnly ops) :
+    (Sm.run step World.init ops).store.entries.map Entry.update = returned World.init ops ∧
+    (Sm.run step World.init ops).out = [] := by
+  obtain ⟨h1, h2⟩ := run_recOnly ops World.init h
+  exact ⟨by rw [h1]; exact List.nil_append _, h2⟩
+
+/-- `DeltaUpdateVulnerabilities` records exactly like `UpdateVulnerabilities`;
+    the deleted names are dropped, as coded. -/
+theorem delta_records_like_update (w : World) (u f : String) (recs : List Rec) (del : List String)
+    (cands : List Nat) :
+    step w (.delta u f recs del cands) = step w (.record .vuln u f recs cands) := by
+  simp [step, Store.recordDelta]
+
+/-! ### Store -/
+
+/-- `Store.Store` returns nil exactly when every line of every entry fits the
+    1 MiB scanner buffer of `bufShim`; whatever the map order. -/
+theorem store_ok_iff_all_lines_fit (order : List Entry) :
+    (storeOut order).2.2 = true ↔ ∀ e ∈ order, ∀ r ∈ e.recs, r.fits = true :=
+  storeOut_ok_iff order
+
+/-- When it succeeds it writes, for each entry in map order, one line per record
+    in record order, all carrying the entry's ref, updater and fingerprint, and
+    empties the map. -/
+theorem store_writes_blocks (order : List Entry) (h : ∀ e ∈ order, ∀ r ∈ e.recs, r.fits = true) :
+    storeOut order = (order.flatMap (fun e => e.recs.map (mkLine e)), [], true) :=
+  storeOut_fits order h
+
+/-- For every reachable store there is a map order (the hypotheses of the
+    theorems below are satisfiable). -/
+theorem store_order_exists (ops : List Op) :
+    ∃ order s' lines ok, (Sm.run step World.init ops).store.store order = some (s', lines, ok) :=
+  JsonBlob.store_order_exists ops
+
+/-! ### Load -/
+
+/-- The loader on a file made of blocks of consecutive lines, one non-empty
+    block per entry, neighbouring (indeed all) blocks carrying different non-Nil
+    refs: it yields exactly one entry per block, in file order, with the block's
+    updater, fingerprint and records in order — nothing lost, duplicated, split
+    or merged — and ends without error. -/
+theorem load_of_written_blocks (es : List Entry) (hne : ∀ e ∈ es, e.recs ≠ [])
+    (hd : es.Pairwise (fun a b => a.ref ≠ b.ref)) (h0 : ∀ e ∈ es, e.ref ≠ 0) :
+    loadAll (es.flatMap fun e => e.recs.map (mkLine e)) = (es.map (fun e => some e.loaded), .ok) :=
+  loadAll_render es hne hd h0
+
+/-- `Next` reporting true implies `Entry()` is non-nil — in every loader state
+    and for every file, damaged ones included (the repaired defect, row 13). -/
+theorem next_true_entry_nonnil (l : Loader) (h : l.step.2 = .yes) : l.step.1.e.isSome = true :=
+  step_yes_entry l h
+
+/-- No file makes the iteration hand out a nil entry. -/
+theorem load_never_yields_nil (lines : List Line) : ∀ x ∈ (loadAll lines).1, x.isSome = true :=
+  drain_all_some _ _
+
+/-- An empty recording loads as no entries: whatever order is given, `Store` on
+    a store nothing was recorded into writes nothing, and the empty file yields
+    no entry and no error. -/
+theorem empty_recording_loads_nothing (order : List Nat) (s' : Store) (lines : List Line) (ok : Bool)
+    (h : Store.init.store order = some (s', lines, ok)) :
+    ok = true ∧ lines = [] ∧ loadAll lines = ([], .ok) := by
+  unfold Store.store at h
+  cases ha : arrange Store.init.entries order with
+  | none => simp [ha] at h
+  | some es =>
+    have hes : es = [] := by
+      cases es with
+      | nil => rfl
+      | cons e es => exact absurd (arrange_mem order _ _ ha e (by simp)) (by simp [Store.init])
+    subst hes
+    simp only [ha, storeOut, Option.some.injEq, Prod.mk.injEq] at h
+    obtain ⟨_, hl, hok⟩ := h
+    subst hl
+    exact ⟨hok.symm, rfl, rfl⟩
+
+/-- The loader before the repair, on the empty file: `l.e = l.next; return true`. -/
+def nextPreFixOnEmpty (l : Loader) : Loader × NextOut :=
+  ({ l with err := .eof, e := l.next }, .yes)
+
+/-- Before the `fix:` commit an empty file made `Next` report true with a nil
+    `Entry()`; `OfflineImport` dereferences it (`importAll` = none). -/
+theorem empty_yields_nil_entry_counterexample :
+    (nextPreFixOnEmpty (Loader.init [])).2 = .yes ∧
+    (nextPreFixOnEmpty (Loader.init [])).1.e = none ∧
+    importAll (fun _ => []) [(nextPreFixOnEmpty (Loader.init [])).1.e] = none := by
   decide
+
+/-! ### Store then Load after a recording history -/
+
+/-- What comes back.  For every history of recording calls (any number, any
+    updaters/fingerprints, repeated ones, any uuid draws), every map order, if
+    every line fits the scanner buffer: `Store` succeeds, empties the map, and
+    `Load` yields — without error — a permutation of exactly the recorded updates
+    that have at least one record, each with its updater, fingerprint and
+    records in order.  So nothing non-empty is lost, nothing is duplicated,
+    split or merged; only zero-length updates are dropped. -/
+theorem load_store_drops_only_empty (ops : List Op) (hrec : RecOnly ops) (order : List Nat)
+    (hfit : ∀ u ∈ returned World.init ops, ∀ r ∈ u.recs, r.fits = true)
+    (s' : Store) (lines : List Line) (ok : Bool)
+    (hst : (Sm.run step World.init ops).store.store order = some (s', lines, ok)) :
+    ok = true ∧ s'.entries = [] ∧
+    ∃ L : List Update, L.Perm ((returned World.init ops).filter fun u => !u.recs.isEmpty) ∧
+      loadAll lines = (L.map (fun u => some u.loaded), .ok) :=
+  store_load_general ops hrec order hfit s' lines ok hst
+
+/-- The property's conclusion — one loaded entry per recorded update — under the
+    two hypotheses the unchanged code needs: every recorded update has at least
+    one record (`hne`), and every record's line is shorter than 1 MiB (`hfit`). -/
+theorem load_store_roundtrip_partial (ops : List Op) (hrec : RecOnly ops) (order : List Nat)
+    (hne : ∀ u ∈ returned World.init ops, u.recs ≠ [])
+    (hfit : ∀ u ∈ returned World.init ops, ∀ r ∈ u.recs, r.fits = true)
+    (s' : Store) (lines : List Line) (ok : Bool)
+    (hst : (Sm.run step World.init ops).store.store order = some (s', lines, ok)) :
+    ok = true ∧ s'.entries = [] ∧
+    ∃ L : List Update, L.Perm (returned World.init ops) ∧
+      loadAll lines = (L.map (fun u => some u.loaded), .ok) := by
+  obtain ⟨h1, h2, L, hp, hl⟩ := store_load_general ops hrec order hfit s' lines ok hst
+  refine ⟨h1, h2, L, ?_, hl⟩
+  have : ((returned World.init ops).filter fun u => !u.recs.isEmpty) = returned World.init ops := by
+    apply List.filter_eq_self.2
+    intro u hu
+    simp [hne u hu]
+  rwa [this] at hp
+
+/-- The hypotheses of `load_store_roundtrip_partial` are satisfiable: a history of
+    three non-empty updates by two updaters, a fingerprint repeated, a uuid
+    collision in the second call. -/
+example :
+    let ops : List Op := [.record .vuln "a" "f" [⟨1, 10⟩, ⟨2, 20⟩] [0],
+                          .record .enrich "b" "f" [⟨3, 5⟩] [0, 1],
+                          .delta "a" "g" [⟨1, 10⟩] ["x"] [2]]
+    RecOnly ops ∧
+    returned World.init ops =
+      [⟨.vuln, "a", "f", [⟨1, 10⟩, ⟨2, 20⟩]⟩, ⟨.enrich, "b", "f", [⟨3, 5⟩]⟩, ⟨.vuln, "a", "g", [⟨1, 10⟩]⟩] := by
+  refine ⟨?_, by decide⟩
+  intro op hop
+  simp only [List.mem_cons, List.not_mem_nil, or_false] at hop
+  rcases hop with rfl | rfl | rfl <;> rfl
+
+/-- Row 12: a zero-length update writes no line and is absent after loading. -/
+theorem zero_length_lost_counterexample :
+    let ops : List Op := [.record .vuln "a" "fa" [⟨7, 10⟩] [0], .record .vuln "b" "fb" [] [1]]
+    let w := Sm.run step World.init ops
+    (returned World.init ops).length = 2 ∧
+    ∃ s' lines, w.store.store [1, 2] = some (s', lines, true) ∧
+      loadAll lines = ([some { updater := "a", fp := "fa", vuln := [⟨7, 10⟩] }], .ok) := by
+  refine ⟨by decide, _, _, rfl, by decide⟩
+
+/-- A record whose JSON line is 1 MiB long makes `Store` fail; the entry is cut
+    at that record and deleted from the map all the same. -/
+theorem oversize_record_store_fails_counterexample :
+    let ops : List Op := [.record .vuln "a" "fa" [⟨1, 10⟩, ⟨2, 1048576⟩, ⟨3, 10⟩] [0]]
+    let w := Sm.run step World.init ops
+    ∃ s' lines, w.store.store [1] = some (s', lines, false) ∧ s'.entries = [] ∧
+      loadAll lines = ([some { updater := "a", fp := "fa", vuln := [⟨1, 10⟩] }], .ok) := by
+  refine ⟨_, _, rfl, rfl, by decide⟩
+
+/-! ### OfflineImport's loop (modelled; not tied to the code — it needs Postgres) -/
+
+/-- An entry whose fingerprint is among the known operations of its updater
+    causes no store call. -/
+theorem import_skips_known_fingerprint (known : String → List String) (e : LEntry)
+    (h : e.fp ∈ known e.updater) : importEntry known e = [] := by
+  simp [importEntry, h]
+
+/-- An entry with an unknown fingerprint causes exactly one call per non-empty
+    record list, with the entry's updater, fingerprint and records. -/
+theorem import_calls_for_unknown (known : String → List String) (e : LEntry)
+    (h : e.fp ∉ known e.updater) (hv : e.vuln ≠ []) (he : e.enrich = []) :
+    importEntry known e = [.vulnerabilities e.updater e.fp e.vuln] := by
+  simp [importEntry, h, hv, he]
+
+/-- Whatever file is loaded, the import loop never dereferences a nil entry. -/
+theorem import_never_dereferences_nil (known : String → List String) (lines : List Line) :
+    (importAll known (loadAll lines).1).isSome = true := by
+  have h := load_never_yields_nil lines
+  generalize (loadAll lines).1 = es at h
+  induction es with
+  | nil => rfl
+  | cons x es ih =>
+    have hx := h x (by simp)
+    cases x with
+    | none => simp at hx
+    | some e =>
+      have := ih (fun y hy => h y (by simp [hy]))
+      simp only [importAll, Option.isSome_map]
+      exact this
 
 end ClairModel.Props.C16
